@@ -380,3 +380,18 @@ Definition time_sub (t : Z) (d : tdelta) : res Z :=
    truncate toward the past at the unit, so the round trip loses one unit.  Inherent to computing at
    nanosecond resolution in chrono and storing at the unit. *)
 Definition kf_subunit (u : tunit) (d : tdelta) : bool := negb (td_ns d mod unit_ns u =? 0).
+
+(* ------------------------------------------------------------------ additions for C17 (extension X27) *)
+(* impl_timedelta.rs:56-69 PartialOrd for TimeDelta ("may not as expected"): only the LEFT operand is tested for
+   NaT; months first, then chrono's derived order on Duration (secs, nanos) = the order of the total nanoseconds *)
+Definition td_partial_cmp (a b : tdelta) : option comparison :=
+  if negb (td_is_nat a) then
+    if negb (td_months a =? td_months b) then Some (td_months a ?= td_months b)
+    else Some (td_ns a ?= td_ns b)
+  else None.
+
+(* impl_time.rs:23-38 From<i64> / From<Option<i64>> for Time, time.rs:25-35 is_nat / is_not_nat *)
+Definition time_from_opt_i64 (o : option Z) : Z := match o with Some v => v | None => NaT end.
+Definition time_is_nat (t : Z) : bool := t =? NaT.
+(* impl_timedelta.rs:45-53 From<Option<i64>> for TimeDelta *)
+Definition td_from_opt_i64 (o : option Z) : tdelta := match o with Some v => td_from_i64 v | None => td_nat end.
